@@ -146,11 +146,11 @@ static Verdict check_c08 (const J &plan)
 // ------------------------------------------------------------------------------------------ C09
 
 static const char *k_bad_kinds [] = { "read_wrong_mode", "write_wrong_mode", "read_misaligned", "write_misaligned", "read_negative", "write_negative", "seek_bad_whence",
-	"seek_wrong_flag", "seek_out_of_range", "seek_nonseekable", "cmd_unknown", "cmd_bad_size", "cmd_after_data", "setstr_read_handle", "setstr_bad_type", "setstr_null", "setchunk_null" } ;
+	"seek_wrong_flag", "seek_out_of_range", "seek_nonseekable", "cmd_unknown", "cmd_bad_size", "cmd_after_data", "setstr_read_handle", "setstr_bad_type", "setstr_null", "setchunk_null", "setstr_empty" } ;
 static const char *k_badopen_kinds [] = { "null_info", "bad_mode", "zero_format", "zero_minor", "invalid_format", "zero_channels", "missing_path", "empty_store", "junk_store", "bad_fd" } ;
 
 static J gen_bad (GenCtx &g)
-{	J b = mkop ("bad") ; b ["kind"] = k_bad_kinds [g.rng.below (17)] ; b ["T"] = stype_name ((int) g.rng.below (4)) ; b ["n"] = (long long) g.rng.range (0, 40) ;
+{	J b = mkop ("bad") ; b ["kind"] = k_bad_kinds [g.rng.below (18)] ; b ["T"] = stype_name ((int) g.rng.below (4)) ; b ["n"] = (long long) g.rng.range (0, 40) ;
 	if (g.rng.chance (0.5)) b ["fr"] = 1 ; if (g.rng.chance (0.5)) b ["beyond"] = 1 ; if (g.rng.chance (0.5)) b ["null"] = 1 ;
 	b ["whence"] = (int) g.rng.pick<int> ({ 3, 7, 99, -1, 0x1000 }) ;
 	return b ;
@@ -171,6 +171,8 @@ static J gen_c09 (uint64_t seed, uint64_t idx)
 	int B = block_frames (f, ch, rate) ;
 	if (g.rng.chance (0.15)) { J bo = mkop ("badopen") ; bo ["kind"] = k_badopen_kinds [g.rng.below (10)] ; ops.push (bo) ; }
 	{ J o = mkop ("open") ; o ["mode"] = "w" ; ops.push (o) ; }
+	if (g.rng.chance (0.4)) for (int k = 0, n = (int) g.rng.range (1, 3) ; k < n ; k++)
+	{	J s = mkop ("setstr") ; s ["type"] = (int) g.rng.pick<int> ({ SF_STR_TITLE, SF_STR_ARTIST, SF_STR_COMMENT, SF_STR_COPYRIGHT }) ; s ["len"] = (long long) g.rng.range (1, 40) ; s ["stream"] = (long long) g.rng.below (1000) ; ops.push (s) ; }
 	int nw = (int) g.rng.range (1, 4) ;
 	int64_t N = 0 ;
 	for (int k = 0 ; k < nw ; k++)
@@ -248,7 +250,8 @@ static J gen_c07 (uint64_t seed, uint64_t idx)
 	int B = block_frames (f, ch, rate) ;
 	int nseg = (int) g.rng.pick<int> ({ 1, 1, 1, 2, 3 }) ;
 	J segs = J::arr () ; int64_t N = 0 ;
-	int64_t cap = is_alac (f) ? 9000 / ch : 6000 / ch + 4 ;
+	// a single call must be able to cross the 8192-byte staging buffer several times for every item width (up to 4 x 8192 items)
+	int64_t cap = is_alac (f) ? 9000 / ch : (g.rng.chance (0.3) ? 36000 : 6000) / ch + 4 ;
 	for (int k = 0 ; k < nseg ; k++)
 	{	J s = J::obj () ; s ["T"] = stype_name ((int) g.rng.below (4)) ;
 		int64_t n = g.rng.chance (0.3) ? g.pick_frames (B, ch, cap) : g.rng.range (1, cap) ;
@@ -575,7 +578,6 @@ static Verdict check_c14 (const J &plan)
 		v.absorb (rs.back ()) ;
 		size_t before = v.findings.size () ;
 		add_owned (v, "C14", rs.back (), owned) ;
-		for (size_t q = before ; q < v.findings.size () ; q++) v.findings [q].plan = p ;
 		completed ++ ;
 	}
 	std::string store = "/sim/cwd/f0.dat" ;
@@ -608,7 +610,6 @@ static Verdict check_c14 (const J &plan)
 		v.absorb (re) ;
 		size_t before = v.findings.size () ;
 		add_owned (v, "C14", re, owned) ;
-		for (size_t q = before ; q < v.findings.size () ; q++) v.findings [q].plan = pe ;
 		// locate the read-phase open in both transcripts
 		const std::vector<Rec> &tv = rs.back ().transcript [0], &te = re.transcript [0] ;
 		size_t wn = cfg.at ("wops").size () ;
@@ -622,8 +623,8 @@ static Verdict check_c14 (const J &plan)
 				for (auto &x : tv) if (x.api != "query:get_embed") a.push_back (x) ;
 				for (auto &x : te) if (x.api != "query:get_embed") b.push_back (x) ;
 				size_t flen = rs.back ().stores.count (store) ? rs.back ().stores.at (store).size () + (size_t) cfg.geti ("emb_t") : 0 ;
-				if (!opened) { Finding fd ; fd.sig = make_sig_raw ("C14", "embed.refused", v.fmt, "embed", "none", flen < 44 ? "shorter_than_44_bytes" : "-") ; fd.detail = "container that supports embedding refused an embedded open" ; fd.plan = pe ; v.findings.push_back (fd) ; }
-				else if (!transcripts_equal_t (a, b, where)) { Finding fd ; fd.sig = make_sig_raw ("C14", "read.transcript", v.fmt, "embed", "none", "vs_vio") ; fd.detail = "embedded at offset " + std::to_string (cfg.geti ("emb_k")) + " vs plain: " + where ; fd.plan = pe ; v.findings.push_back (fd) ; }
+				if (!opened) { Finding fd ; fd.sig = make_sig_raw ("C14", "embed.refused", v.fmt, "embed", "none", flen < 44 ? "shorter_than_44_bytes" : "-") ; fd.detail = "container that supports embedding refused an embedded open" ; v.findings.push_back (fd) ; }
+				else if (!transcripts_equal_t (a, b, where)) { Finding fd ; fd.sig = make_sig_raw ("C14", "read.transcript", v.fmt, "embed", "none", "vs_vio") ; fd.detail = "embedded at offset " + std::to_string (cfg.geti ("emb_k")) + " vs plain: " + where ; v.findings.push_back (fd) ; }
 				v.probes ["embed_read_compared"] ++ ;
 			}
 			else if (opened && f->major != SF_FORMAT_RAW)
@@ -632,7 +633,7 @@ static Verdict check_c14 (const J &plan)
 				std::vector<Rec> a, b ;
 				for (auto &x : tv) if (x.api != "query:get_embed") a.push_back (x) ;
 				for (auto &x : te) if (x.api != "query:get_embed") b.push_back (x) ;
-				if (!transcripts_equal_t (a, b, where)) { Finding fd ; fd.sig = make_sig_raw ("C14", "embed.accepted_differs", v.fmt, "embed", "none", "-") ; fd.detail = "embedded open accepted for a container without embedding support and results differ: " + where ; fd.plan = pe ; v.findings.push_back (fd) ; }
+				if (!transcripts_equal_t (a, b, where)) { Finding fd ; fd.sig = make_sig_raw ("C14", "embed.accepted_differs", v.fmt, "embed", "none", "-") ; fd.detail = "embedded open accepted for a container without embedding support and results differ: " + where ; v.findings.push_back (fd) ; }
 			}
 		}
 		completed ++ ;
@@ -644,10 +645,9 @@ static Verdict check_c14 (const J &plan)
 			v.absorb (rw) ;
 			before = v.findings.size () ;
 			add_owned (v, "C14", rw, owned) ;
-			for (size_t q = before ; q < v.findings.size () ; q++) v.findings [q].plan = pw ;
-			std::string where ;
+				std::string where ;
 			if (v.findings.empty () && rw.transcript [0].size () && rw.transcript [0][0].ret == 1 && !transcripts_equal_t (rs.back ().transcript [0], rw.transcript [0], where))
-			{	Finding fd ; fd.sig = make_sig_raw ("C14", "read.transcript", v.fmt, "embed_write", "none", "vs_vio") ; fd.detail = "file written embedded at offset " + std::to_string (cfg.geti ("emb_k")) + " reads differently: " + where ; fd.plan = pw ; v.findings.push_back (fd) ; }
+			{	Finding fd ; fd.sig = make_sig_raw ("C14", "read.transcript", v.fmt, "embed_write", "none", "vs_vio") ; fd.detail = "file written embedded at offset " + std::to_string (cfg.geti ("emb_k")) + " reads differently: " + where ; v.findings.push_back (fd) ; }
 			v.probes ["embed_write_compared"] ++ ;
 			completed ++ ;
 		}
@@ -662,8 +662,7 @@ static Verdict check_c14 (const J &plan)
 			v.absorb (rv) ; v.absorb (rf) ;
 			before = v.findings.size () ;
 			add_owned (v, "C14", rf, owned) ;
-			for (size_t q = before ; q < v.findings.size () ; q++) v.findings [q].plan = pf ;
-			std::string where ;
+				std::string where ;
 			// only read calls are compared (a pipe has no length, so header derived values such as get_string of a tail chunk may differ)
 			std::vector<Rec> a, b ;
 			for (auto &x : rv.transcript [0]) if (x.api.compare (0, 4, "read") == 0 || x.api.compare (0, 5, "open:") == 0) a.push_back (x) ;
@@ -671,7 +670,7 @@ static Verdict check_c14 (const J &plan)
 			for (auto &x : a) if (x.api.compare (0, 5, "open:") == 0) x.dh = 0 ;
 			for (auto &x : b) if (x.api.compare (0, 5, "open:") == 0) x.dh = 0 ;
 			if (v.findings.empty () && !transcripts_equal_t (a, b, where))
-			{	Finding fd ; fd.sig = make_sig_raw ("C14", "pipe.samples", v.fmt, "fifo", "none", "-") ; fd.detail = "non-seekable pipe vs virtual I/O: " + where ; fd.plan = pf ; v.findings.push_back (fd) ; }
+			{	Finding fd ; fd.sig = make_sig_raw ("C14", "pipe.samples", v.fmt, "fifo", "none", "-") ; fd.detail = "non-seekable pipe vs virtual I/O: " + where ; v.findings.push_back (fd) ; }
 			v.probes ["pipe_compared"] ++ ;
 			completed ++ ;
 		}
